@@ -163,7 +163,7 @@ func nodes(v *jv, d int, acc *[]*jv, depths *[]int) {
 }
 
 func junk(r *vproto.Rng, goOnly bool) *jv {
-	k := r.Intn(14)
+	k := r.Intn(15)
 	if !goOnly && k >= 11 {
 		k = r.Intn(11)
 	}
@@ -197,6 +197,8 @@ func junk(r *vproto.Rng, goOnly bool) *jv {
 			return jgo("jn " + strTok(jsonNumberTexts[r.Intn(len(jsonNumberTexts))]))
 		}
 		return jgo("F1 2 " + vproto.F2H(1) + " " + vproto.F2H(2))
+	case 13:
+		return jgo([]string{"ref 0", "ref 0", "ref 1", "ref 2"}[r.Intn(4)])
 	default:
 		return jgo([]string{"PT " + vproto.F2H(1) + " " + vproto.F2H(2), "F2 1 2 " + vproto.F2H(1) + " " + vproto.F2H(2), "F1 0", "F2 0", "f 7ff8000000000001", "f 7ff0000000000000", "f fff0000000000000"}[r.Intn(7)])
 	}
@@ -511,6 +513,21 @@ func genJSON(out *bufio.Writer, r *vproto.Rng, tier string) {
 			"F1 2 3ff0000000000000 4000000000000000", "F2 1 2 3ff0000000000000 4000000000000000", "a 1 F1 2 3ff0000000000000 4000000000000000", "a 2 i 1 i 2", "a 2 f 3ff0000000000000 i 2",
 			"PT 3ff0000000000000 4000000000000000", "a 1 PT 3ff0000000000000 4000000000000000", "s 5b312c325d", "t", "i 5", "o 0", "o 1 78 f 3ff0000000000000", "a 2 a 0 a 2 f 3ff0000000000000 f 4000000000000000",
 			"a 1 a 2 a 0 a 0", "a 1 a 1 a 2 a 0 a 0", "a 1 a 1 a 1 a 2 a 0 a 0", "a 1 a 0", "a 1 a 1 a 0", "a 1 a 1 a 1 a 0", "a 1 a 1 a 1 a 1 a 0"} {
+			fmt.Fprintf(out, "gj s%s %s\n", hex.EncodeToString([]byte(typ)), tok)
+		}
+	}
+	// CYCLIC values (only a hand-built *Geometry can hold them; json.Unmarshal builds trees):
+	// the array contains itself at position 0, at another position, through 2-5 levels, through a
+	// map, next to well-formed members
+	for _, typ := range append(append([]string{}, geoTypes...), "", "GeometryCollection") {
+		one, two := "f 3ff0000000000000", "f 4000000000000000"
+		for _, tok := range []string{
+			"a 1 ref 0", "a 2 ref 0 " + two, "a 2 " + one + " ref 0", "a 3 ref 0 ref 0 ref 0", "a 2 ref 0 ref 0",
+			"a 1 a 1 ref 1", "a 1 a 1 ref 0", "a 1 a 1 a 1 ref 2", "a 1 a 1 a 1 a 1 ref 3", "a 1 a 1 a 1 a 1 a 1 ref 4", "a 1 a 1 a 1 a 1 a 1 a 1 ref 5",
+			"a 2 a 1 ref 1 " + two, "a 2 a 2 " + one + " " + two + " ref 0", "a 2 a 2 " + one + " " + two + " a 1 ref 1",
+			"a 1 a 2 a 2 " + one + " " + two + " ref 1", "a 1 a 1 a 2 a 2 " + one + " " + two + " ref 2", "a 1 a 1 a 1 a 2 " + one + " ref 3",
+			"a 1 o 1 6b ref 0", "a 2 o 1 6b ref 0 ref 0", "a 1 a 1 o 1 6b a 1 ref 2", "a 2 " + one + " a 1 ref 1", "a 1 a 2 ref 1 ref 0", "ref 0", "a 1 ref 7",
+		} {
 			fmt.Fprintf(out, "gj s%s %s\n", hex.EncodeToString([]byte(typ)), tok)
 		}
 	}
